@@ -134,7 +134,7 @@ class StageP:
             rc2, out2 = run_cmd(['lake', 'env', 'lean', audit], cwd=LEAN)
             cur = None
             text = out2.replace('\n  ', ' ')
-            for m in re.finditer(r"'([^']+)' (depends on axioms: \[([^\]]*)\]|does not depend on any axioms)", text):
+            for m in re.finditer(r"'(\S+)' (depends on axioms: \[([^\]]*)\]|does not depend on any axioms)", text):
                 name = m.group(1)
                 axs = [a.strip() for a in (m.group(3) or '').split(',') if a.strip()]
                 self.axioms[name] = axs
